@@ -20,6 +20,7 @@ type timerGate struct {
 	done    chan struct{}
 	closed  chan struct{}
 	once    sync.Once
+	blind   atomic.Bool // the hook points were not reached in time once: do not wait that long again
 }
 
 func newTimerGate() *timerGate {
@@ -79,11 +80,19 @@ func unregisterGate(path string) {
 	}
 }
 
-// letTimerFlush waits for the persister's timer to fire, lets exactly one timer flush through and waits for its end
+// letTimerFlush waits for the persister's timer to fire, lets exactly one timer flush through and waits for its end.
+// It returns false when the hook points around the timer flush were not observed (code restructured, or the handler
+// skipped its flush): that alone is NOT a violation — by then several BatchDelaySeconds periods have elapsed, so the
+// handler has had its turn, and the state oracles (crash images at the boundary after the tick, read-backs) decide
+// whether what had to be flushed was flushed.
 func letTimerFlush(g *timerGate, patience time.Duration) bool {
+	if g.blind.Load() {
+		patience = 2500 * time.Millisecond
+	}
 	select {
 	case <-g.arrived:
 	case <-time.After(patience):
+		g.blind.Store(true)
 		return false
 	}
 	g.release <- struct{}{}
